@@ -117,7 +117,6 @@ DOC_MENU = {
     "empty": ("", False),
 }
 
-CHECKS = ["capture", "behaves", "self-contained", "idempotent", "rename"]     # + "doc:<docclass>"
 
 PREAMBLE = [
     "# module written by the C20 check",
@@ -130,7 +129,9 @@ PREAMBLE = [
     "    return deco",
     "def ident(fn, *rest):",
     "    return fn",
+    "BEFORE = lambda q: q - 1      # another lambda on an earlier line of the module",
 ]
+EPILOGUE = ["AFTER = lambda q: q + 1       # ... and one on a later line", "END = 1"]
 EXPLICIT_REJECTION = "more than 1 lambda expressions found"
 
 
@@ -281,7 +282,7 @@ def build(case):
         pre = list(PREAMBLE)
         if form == "obj-defcells":
             pre.insert(1, "import modelx as mx")
-        text = "\n".join(pre + wrap + out + ["END = 1"]) + "\n"
+        text = "\n".join(pre + wrap + out + EPILOGUE) + "\n"
     return {"kind": kind, "via": via, "form": form, "text": text, "canon": canon, "fname": fname,
             "cname": cname, "pass_name": pass_name}
 
@@ -480,7 +481,14 @@ def check_text(case, tmpdir, docs, only=None):
     w = World(T, tmpdir)
     try:
         # ---- capture ---------------------------------------------------------------------
-        s = w.space()
+        try:
+            s = w.space()
+        except (KeyboardInterrupt, SystemExit):
+            raise
+        except BaseException as e:       # the sibling cells g (a plain lambda source) cannot be created
+            bad("capture", "capture-raises[setup]:%s" % type(e).__name__,
+                "%s: %s" % (type(e).__name__, str(e)[:120]), "sibling cells g = " + G_SOURCE)
+            return "checked", viols, digest(["setup-raises", type(e).__name__]), 0
         try:
             c = w.create(s)
         except ValueError as e:
@@ -677,7 +685,7 @@ def tier_dims(tier):
     if tier == "quick":
         return {"form": ["src-def", "src-deco2", "src-decoml", "obj-def", "obj-deco2", "obj-decoml", "obj-defcells"]
                 + LAM_FORMS,
-                "name": NAMES, "indent": ["0", "4"],
+                "name": NAMES, "indent": ["0", "4", "tab"],
                 "doc": ["none", "one", "multi", "quote", "raw"],
                 "comment": ["none", "lead", "defline", "lastline", "after"],
                 "docs": DOC_MENU_QUICK,
@@ -814,7 +822,7 @@ def _static_class(case):
         return layout_class(case)
     if chk == "rename":
         return "lambda" if _is_lambda_form(case["form"]) else "def"
-    return FAMILY[case["form"]]
+    return FAMILY[case["form"]]        # (a failing setup keeps failing whatever the case: shrinks to the bottom)
 
 
 def shrink_candidates(case):
